@@ -1,5 +1,6 @@
 import HapVerif.Model.C09
 import HapVerif.Model.C09Ctx
+import HapVerif.Model.C09Memo
 import HapVerif.Drv.Common
 namespace HapVerif.C09
 open HapVerif.Drv
@@ -12,6 +13,7 @@ open HapVerif.Drv
     C09 dyn   <static> <crt><ca><pw><svc>               => <bits4>
     C09 site  <site> <src> <form> <static+bits4> <fu>   => t=<own|foreign|file|none>;r=<0|1>;u=<0|1>;b=<bits4> | PANIC
     C09 carrier <route> <site> <form> <static+bits4> <fu> => (as site)
+    C09 legit <site> <src> <form> <static+bits4> <ord> <hist> => (as site)
 
   bits4 = crt ca passwd services.  dyn tokens: a allow, d deny, - absent, A "Allow", U "ALLOW",
   x "yes", t "true", e "", s " allow", w "allowed".
@@ -288,8 +290,48 @@ def siteLine (st : SiteTok) (route : Route) (refNs name : Str) (form set fu impl
           trivial := form == "n" || form == "own" }
     | _ => bad "site-parse"
 
+/-- `legit` (harness c09xns/legit_test.go): namespace b's OWN objects use b's secret through the same kind
+of site and are converted in the same sync as namespace a's referencing object (hist f / pj; ord e: b's
+readers first, l / s: a's object first) or in another sync (pa, pb).  The prediction is the memo-free
+`runSync none` of `Model/C09Memo.lean` over the references of the sync that converts a's object; the
+Spec is the one of `site` lines: while the kind is denied, a's slice does not depend on b's secret. -/
+def legitLine (st : SiteTok) (form set ord hist impl : String) : Verdict :=
+    match set.toList with
+    | [s, c1, c2, c3, c4] =>
+      let static := s == '1'
+      let tok (c : Char) : Str := if c == '1' then sAllow else "deny".toList
+      let cm : GlobalCM := { crt := tok c1, ca := tok c2, pw := tok c3, svc := tok c4 }
+      let cur := buildGlobalDynamic static cm
+      let k := st.site.kind
+      if k = .svc || form == "file" || form == "fileb" then bad "legit-site" else
+      if !(["e", "l", "s"].contains ord) || !(["f", "pa", "pb", "pj"].contains hist) then bad "legit-hist" else
+      match formValue k form with
+      | none => bad "legit-form"
+      | some value =>
+        let qa : Ref := ⟨nsA, value⟩
+        let qb : Ref := ⟨nsB, if form == "secn" then "secret://".toList ++ kindTok k else kindTok k⟩
+        let same := hist == "f" || hist == "pj"
+        let bFirst := ord == "e"
+        let rs := runSync none st.site.getter cur (syncRefs bFirst same true qa qb)
+        let ans := (if bFirst && same then rs.getLast? else rs.head?).getD .invalid
+        let t := targetOf form "0" ans
+        -- a read of b's secret can be attributed to a's object only when it is converted alone
+        let r := hist == "pa" && st.site != .gwCert && (match ans with | .obj ns _ => ns != nsA | _ => false)
+        let m := "t=" ++ t ++ ";r=" ++ bit r ++ ";u=" ++ bit (t == "foreign") ++ ";b=" ++ showBits cur
+        let allowed := specAllowed static cm k
+        let fields := impl.splitOn ";"
+        let has (x : String) := fields.contains x
+        { model := m, agree := m = impl,
+          oracle := oracle st.label k allowed (has "r=1") (has "u=1" || has "t=foreign") (impl == "PANIC"),
+          trivial := form == "n" || form == "own" }
+    | _ => bad "legit-parse"
+
 def handle (args : List String) (impl : String) : Verdict :=
   match args with
+  | ["legit", site, _src, form, set, ord, hist] =>
+    match parseSite site with
+    | some st => legitLine st form set ord hist impl
+    | none => bad "legit-parse"
   | ["oauth", src, im, pfx, decls, set, _fu] =>
     let pfx? : Option (Option Str) := if pfx = "-" then some none else (unhex pfx).map some
     match pfx?, parseList parseDecl decls "+", set.toList with
